@@ -310,7 +310,9 @@ func normalizeVaryHeaderSeq2(vary string, reqHeader http.Header) iter.Seq2[strin
 				// All field lines count; they combine into one comma-separated value (RFC 9110 §5.3).
 				value = normalizeHeaderValue(name, strings.Join(values, ","))
 			}
-			if !yield(name, value) {
+			// The names come from the origin's Vary value and end up as keys of a JSON object in
+			// the index: like the values they are kept in a form that survives the encoding.
+			if !yield(storableValue(name), value) {
 				return
 			}
 		}
